@@ -23,3 +23,9 @@ claim("C16",
       "Every transport read of the handshake and record layer is enumerated from the typed SSA: a bare Read on an io.Reader that is a parameter or field is a violation, io.ReadFull must have its error tested and returned - so no fragmentation of any granularity can leave a half-filled field (all fragmentations at once). For partial writes, Flush must advance each pending slice by the count of that very Write before looking at the error, must return a header error before touching the body, and WriteMessage's two Encrypt calls must be dominated by the nothing-pending test and the 65535 bound.",
       "Not decided: the arithmetic that subtracts MAC bytes from the count returned by Flush (piecewise-linear in the write count; only sampled by the repository's TestFlush).",
       "DESIGN.md §4 C16")
+
+claim("C14",
+      "dominance and path rules over SSA (must-pass-through a final-chunk hand-off; accumulator typestate), canonical-expression matching of the chunk arithmetic",
+      "The chunking code is decided structurally for all payload lengths and chunk sizes at once: every success exit of Send is dominated by the hand-off of a packet whose FinalChunk flag is known to be set; each chunk is data[off:hi] with off the running offset advancing by exactly the chunk length, hi-off <= maxChunkSize and the final flag set exactly when the remainder fits; Recv's accumulator is connection state (written back before every wait, reset only on the final chunk, single writer), a message is reported only under the FinalChunk fact of the packet just received, payloads are appended whole, and ping packets are never handed to Recv. These are necessary conditions for 'one Send = one identical Recv'; the remaining, genuine gap (Send erroring after a non-final chunk) is reported as a known finding.",
+      "Not decided: delivery/ordering of the packets themselves (C01) and behaviour under transport faults. Known finding: Send timeout inside a chunked message (needs a protocol change).",
+      "DESIGN.md §4 C14")
